@@ -35,29 +35,17 @@ impl SegmentWriter {
         let header_bytes_written = WAL_ENTRY_HEADER_SIZE as u32;
         let op_data_len = op_data.len() as u32;
 
-        self.writer.write_all(&op_version.get().to_le_bytes()).map_err(|io_err| {
-            WalError::WriteWalEntryDataIO {
-                op_version,
-                segment_id: self.segment_id,
-                source: io_err,
-            }
-        })?;
-        self.writer.write_all(op_hash.as_bytes()).map_err(|io_err| {
-            WalError::WriteWalEntryDataIO {
-                op_version,
-                segment_id: self.segment_id,
-                source: io_err,
-            }
-        })?;
-        self.writer.write_all(&op_data_len.to_le_bytes()).map_err(|io_err| {
-            WalError::WriteWalEntryDataIO {
-                op_version,
-                segment_id: self.segment_id,
-                source: io_err,
-            }
-        })?;
+        // Assemble header and payload into one buffer so the whole record reaches the file
+        // with a single write call: a record whose size reaches the BufWriter capacity would
+        // otherwise be split into a header write and a payload write, and a crash between the
+        // two leaves a complete header without payload, which replay reports as corruption.
+        let mut record = Vec::with_capacity(WAL_ENTRY_HEADER_SIZE + op_data.len());
+        record.extend_from_slice(&op_version.get().to_le_bytes());
+        record.extend_from_slice(op_hash.as_bytes());
+        record.extend_from_slice(&op_data_len.to_le_bytes());
+        record.extend_from_slice(op_data);
 
-        self.writer.write_all(op_data).map_err(|io_err| WalError::WriteWalEntryDataIO {
+        self.writer.write_all(&record).map_err(|io_err| WalError::WriteWalEntryDataIO {
             op_version,
             segment_id: self.segment_id,
             source: io_err,
